@@ -48,7 +48,7 @@ type replayFile struct {
 }
 
 func writeReplayFile(id string, o *Oblig, rep *ReplayResult, note string) string {
-	dir := filepath.Join(verifDir, "replays")
+	dir := filepath.Join(outDir(), "replays")
 	os.MkdirAll(dir, 0o755)
 	name := "unknown"
 	rf := replayFile{Property: id, Note: note, Replay: rep}
